@@ -93,6 +93,8 @@ package vm
 //@   requires stack != nil && len(stack.data) >= 3
 //@   ensures [ovf]  result1 == memOvf(umax256(stack.data[len(stack.data)-1], stack.data[len(stack.data)-2]), stack.data[len(stack.data)-3])
 //@   ensures [size] !result1 ==> result0 == memSz(umax256(stack.data[len(stack.data)-1], stack.data[len(stack.data)-2]), stack.data[len(stack.data)-3])
+//@   # the same size, stated for the SOURCE range alone: the label is what doProposal022 asks of MCOPY's memorySize (a one-range helper has no such clause)
+//@   ensures [srcrange] !result1 && stack.data[len(stack.data)-3] != 0 ==> result0 >= memSz(stack.data[len(stack.data)-2], stack.data[len(stack.data)-3])
 //@   modifies nothing
 
 //@ func memoryCreate
@@ -1461,7 +1463,7 @@ package vm
 // least p and at most 1024 + p - q items, so that the stack never exceeds 1024 after it ran (BASEFEE,
 // BLOBBASEFEE, PUSH0 push one; BLOBHASH, TLOAD replace the top; TSTORE pops two; MCOPY pops three).
 //@ func doProposal022
-//@   property C11
+//@   property C10 C11
 //@   requires jt != nil
 //@   ensures [basefee]     jt[BASEFEE] != nil && jt[BASEFEE].minStack == 0 && jt[BASEFEE].maxStack == 1023
 //@   ensures [blobhash]    jt[BLOBHASH] != nil && jt[BLOBHASH].minStack == 1 && jt[BLOBHASH].maxStack == 1024
@@ -1469,6 +1471,8 @@ package vm
 //@   ensures [tload]       jt[TLOAD] != nil && jt[TLOAD].minStack == 1 && jt[TLOAD].maxStack == 1024
 //@   ensures [tstore]      jt[TSTORE] != nil && jt[TSTORE].minStack == 2 && jt[TSTORE].maxStack == 1026
 //@   ensures [mcopy]       jt[MCOPY] != nil && jt[MCOPY].minStack == 3 && jt[MCOPY].maxStack == 1027
+//@   # MCOPY reads [src, src+len) and writes [dst, dst+len): its memory-size function must cover the source range too
+//@   ensures [mcopy.mem]   jt[MCOPY] != nil && @clause_srcrange(jt[MCOPY].memorySize)
 //@   ensures [push0]       jt[PUSH0] != nil && jt[PUSH0].minStack == 0 && jt[PUSH0].maxStack == 1023
 
 // The base table: the standard state-writing entries are flagged.
